@@ -66,15 +66,17 @@ struct alignas(tAlign) ElemT {
 static_assert(sizeof(ElemT<4, 4>) == 8 || true, "");
 struct Elem4 { uint32_t id; Elem4() = default; explicit Elem4(uint32_t i) : id(i) {} };
 
+// a copy constructor that is armed throws before it has touched the destination storage
+inline void copyPoint() {
+	if (ec().copyCountdown == 0) { ec().copyCountdown = -1; ec().firedCopy = true; throw std::runtime_error("copy"); }
+	if (ec().copyCountdown > 0) --ec().copyCountdown;
+}
+
 // nothrow-move, non-trivial; copy may throw when armed
 struct ElemNM {
 	uint32_t id; uint32_t state;	// 0xA11CE = live, 0xDEAD = destroyed, 0x30FED = moved-from
 	explicit ElemNM(uint32_t i = 0) : id(i), state(0xA11CE) { ++ec().live; ++ec().constructed; }
-	ElemNM(const ElemNM& o) : id(o.id), state(0xA11CE) {
-		if (ec().copyCountdown == 0) { ec().copyCountdown = -1; ec().firedCopy = true; throw std::runtime_error("copy"); }
-		if (ec().copyCountdown > 0) --ec().copyCountdown;
-		++ec().live; ++ec().constructed; ++ec().copies;
-	}
+	ElemNM(const ElemNM& o) : id((copyPoint(), o.id)), state(0xA11CE) { ++ec().live; ++ec().constructed; ++ec().copies; }
 	ElemNM(ElemNM&& o) noexcept : id(o.id), state(0xA11CE) { o.state = 0x30FED; ++ec().live; ++ec().constructed; ++ec().moves; }
 	ElemNM& operator=(const ElemNM& o) { id = o.id; state = 0xA11CE; return *this; }
 	ElemNM& operator=(ElemNM&& o) noexcept { id = o.id; state = 0xA11CE; o.state = 0x30FED; return *this; }
@@ -85,11 +87,7 @@ struct ElemNM {
 struct ElemCO {
 	uint32_t id; uint32_t state;
 	explicit ElemCO(uint32_t i = 0) : id(i), state(0xA11CE) { ++ec().live; ++ec().constructed; }
-	ElemCO(const ElemCO& o) : id(o.id), state(0xA11CE) {
-		if (ec().copyCountdown == 0) { ec().copyCountdown = -1; ec().firedCopy = true; throw std::runtime_error("copy"); }
-		if (ec().copyCountdown > 0) --ec().copyCountdown;
-		++ec().live; ++ec().constructed; ++ec().copies;
-	}
+	ElemCO(const ElemCO& o) : id((copyPoint(), o.id)), state(0xA11CE) { ++ec().live; ++ec().constructed; ++ec().copies; }
 	ElemCO& operator=(const ElemCO& o) { id = o.id; state = 0xA11CE; return *this; }
 	~ElemCO() { state = 0xDEAD; --ec().live; ++ec().destroyed; }
 };
